@@ -363,6 +363,7 @@ def main(run):
     _end_to_end(run, rng, thorough, lines, meta)
     _large_mesh(run, rng, thorough)
     _relabelled(run, rng, thorough)
+    _no_symmetry(run, rng, thorough)
 
     # ------------------------------------------------------------ compare with the model
     out = common.lean_run_driver("C09", lines)
@@ -530,6 +531,45 @@ def _same_grid(gp, m, info):
         if not (qi == qm).all():
             return False, "q-points (exact)"
     return True, ""
+
+
+def _no_symmetry(run, rng, thorough):
+    """`Phonopy(is_symmetry=False)` with force constants that BREAK the point symmetry of the structure (legitimate: that is
+    what is_symmetry=False is for): the default mesh symmetry may then only use what the dynamical matrix really has (time
+    reversal) - sampling with is_mesh_symmetry on and off must agree for every kind of mesh."""
+    names = ["cscl", "nacl_prim", "hcp", "bct", "zincblende_prim", "rhombo"]
+    for _ in range(4 if thorough else 2):
+        name = rng.choice(names)
+        cell, cen = U.make_cell(name)
+        S = np.diag([2, 2, 2])
+        ph = gen.make_phonopy(cell, S, pmat="P", is_symmetry=False)
+        fc0 = gen.pair_fc(ph.supercell, min(0.9 * gen.min_lattice_vector(ph.supercell.cell), 5.0))
+        # congruence with a generic matrix: keeps Phi_ij = Phi_ji^T, the sum rules and positive semi-definiteness, but not
+        # the invariance under the crystal's rotations
+        A = np.eye(3) + np.array([[rng.randint(-3, 3) / 16.0 for _ in range(3)] for _ in range(3)]) + np.diag([0.0, 0.2, -0.15])
+        ph.force_constants = np.einsum("ab,ijbc,dc->ijad", A, fc0, A)
+        variants = [([rng.randint(2, 4)] * 3, None, False), ([rng.randint(2, 4)] * 3, None, True), ([rng.randint(2, 3) * 2] * 3, (0.5, 0.5, 0.5), True),
+                    (float(rng.choice([7.0, 9.0, 12.0])), None, False)]
+        for mesh, shift, gamma in (variants if thorough else rng.sample(variants, 3)):
+            res = {}
+            for sym in (True, False):
+                ph.run_mesh(mesh, shift=shift, is_mesh_symmetry=sym, is_gamma_center=gamma)
+                md = ph.get_mesh_dict()
+                ph.run_thermal_properties(t_min=0, t_max=600, t_step=300, cutoff_frequency=0.05)
+                tp = ph.get_thermal_properties_dict()
+                ph.run_total_dos(sigma=0.15, freq_min=0.0, freq_max=8.0, freq_pitch=0.25)
+                res[sym] = (np.array([tp["free_energy"], tp["entropy"], tp["heat_capacity"]]), np.array(ph.get_total_dos_dict()["total_dos"]),
+                            int(np.sum(md["weights"])), len(md["weights"]))
+            a, b = res[True], res[False]
+            rel = max(float(np.abs(a[0] - b[0]).max() / max(1.0, np.abs(b[0]).max())), float(np.abs(a[1] - b[1]).max() / max(1.0, np.abs(b[1]).max())))
+            cd = dict(cell=name, is_symmetry=False, mesh=mesh, shift=None if shift is None else list(shift), is_gamma_center=gamma,
+                      force_constants="gen.pair_fc transformed by Phi_ij -> A Phi_ij A^T", A=A.tolist())
+            run.count("oracle-is_symmetry-false", section="oracle")
+            run.case(("nosym", name, str(mesh), shift, gamma, A.tobytes()), nontrivial=True)
+            if a[2] != b[2] or rel > 1e-8:
+                run.violation("Phonopy.run_mesh", "mesh-symmetry-on-ne-off-is_symmetry-false",
+                              "Phonopy(is_symmetry=False), symmetry-breaking force constants: thermal properties / smearing DOS with is_mesh_symmetry on (%d q-points) "
+                              "and off (%d) differ by rel. %.3g" % (a[3], b[3], rel), cd)
 
 
 def _relabelled(run, rng, thorough):
